@@ -44,7 +44,7 @@ CHECKS['C07'] = (
     'manip.py and the get_basis pipeline + exact-rational span check of the implementation output',
     'Proof (on the model): uncontract_segmented_spec / shape, removeFree_spec (single-momentum shells), span_zeroRow and zeroRow_support for one '
     'zeroing step of optimize_general (Mathlib Submodule.span over Q), literals and call order regenerated from manip.py/api.py. Tie: exact shell-list '
-    'equality model = implementation per element, directly and through 12 flag combinations. span_zeroAll: the whole sweep over all free primitives keeps the span (induction over the (row, column) pairs; rows pairwise different as the code requires). optimizeShell_span: the list-level optimizeShell of the model (the function the driver runs against manip.optimize_general) keeps the span of the column vectors, for every shell it accepts — famOf_zeroedOf (its matrix is the abstract sweep), rowColPairs_single (every collected pair names a one-entry column), span_filter_nonzero (dropping emptied contractions). Span equality and the non-zero count of the real output are decided by exact Gaussian elimination in the harness.',
+    'equality model = implementation per element, directly and through 12 flag combinations. span_zeroAll: the whole sweep over all free primitives keeps the span (induction over the (row, column) pairs; rows pairwise different as the code requires). optimizeShell_span: the list-level optimizeShell of the model (the function the driver runs against manip.optimize_general) keeps the span of the column vectors, for every shell it accepts — famOf_zeroedOf (its matrix is the abstract sweep), rowColPairs_single (every collected pair names a one-entry column), span_filter_nonzero (dropping emptied contractions). optimizeShell_nnz_le: never more non-zero coefficients than the general-contracted shell it starts from (entries are only replaced by the zero literal, contractions only dropped). Span equality and the non-zero count of the real output are decided by exact Gaussian elimination in the harness.',
     BASE_NOTE + 'Faithful hypothesis; Fraction arithmetic of CPython for the span oracle.', '6/C07')
 CHECKS['C08'] = (
     'Lean 4 theorems (prune_shell output has pairwise distinct exponent values and no dead primitive, prune_basis output has no duplicate shell, '
